@@ -164,8 +164,8 @@ def run_gen():
 
 
 HARNESS_FLAVOURS = {
-    "O1": ["-O1", "-g"],
-    "O3": ["-O3"],
+    "O1": ["-O1", "-g", "-DHARNESS_ALLOCLOG"],
+    "O3": ["-O3", "-DHARNESS_ALLOCLOG"],
     "asan": ["-O1", "-g", "-fsanitize=address,undefined", "-fno-sanitize-recover=all", "-DHARNESS_EXACT"],
 }
 
@@ -197,7 +197,8 @@ def build_harness(flavour="O1", extra_defs=()):
                     errs.append("%s:\n%s" % (s, out.decode()[-3000:]))
             if errs:
                 return None, "harness compile failed:\n" + "\n".join(errs)
-            p = subprocess.run(["g++"] + flags + objs + ["-lgmp", "-lgmpxx", "-o", exe + ".tmp"],
+            wrap = ["-Wl,--wrap=malloc", "-Wl,--wrap=free"] if "-DHARNESS_ALLOCLOG" in flags else []
+            p = subprocess.run(["g++"] + flags + wrap + objs + ["-lgmp", "-lgmpxx", "-o", exe + ".tmp"],
                                stdout=subprocess.PIPE, stderr=subprocess.STDOUT, timeout=600)
             if p.returncode != 0:
                 return None, "harness link failed:\n" + p.stdout.decode()[-3000:]
